@@ -580,10 +580,21 @@ pub fn gen_history(seed: u64, p: &Profile) -> History {
     let len = if lane_stress { len.max(ops.len() + 6) } else { len };
     // long histories: at some point a run of orders that are added and cancelled at once, so
     // that a long row of dead tickets (33 ... 1030) lies between the live orders of the queue
+    // (half of the marathons trade each order away instead of cancelling it: 66 000 matches and
+    // transactions rather than 66 000 dead tickets)
+    let mut marathon_trades = false;
     let mut stale_run: Option<(usize, usize)> = if long && g.k.chance(1, 2) {
+        // (about one such history in eight hundred is a marathon: 66 000 pairs, past every
+        // 16-bit counter)
+        let marathon = g.k.chance(1, 800);
+        marathon_trades = marathon && g.k.chance(1, 2);
         Some((
             ops.len() + g.k.below(12) as usize,
-            *g.k.pick(&[33usize, 40, 64, 70, 130, 260, 520, 1030]),
+            if marathon {
+                66_000
+            } else {
+                *g.k.pick(&[33usize, 40, 64, 70, 130, 260, 520, 1030])
+            },
         ))
     } else {
         None
@@ -597,8 +608,30 @@ pub fn gen_history(seed: u64, p: &Profile) -> History {
                     let mut o = g.order(id);
                     o.vis = o.vis.min(3);
                     o.hid = o.hid.min(3);
+                    if marathon_trades {
+                        // plain quantities, so that nothing silent piles up over 66 000 rounds
+                        o.vis = o.vis.max(1);
+                        o.hid = 0;
+                    }
+                    if g.book.len() > g.book_cap + 8 {
+                        break;
+                    }
                     g.book_add(o);
                     ops.push(Op::Add(o));
+                    if marathon_trades {
+                        let qty = o.vis;
+                        let before = g.gone.len();
+                        g.book_match(qty);
+                        g.gone.truncate(before);
+                        ops.push(Op::Match {
+                            qty,
+                            taker: IdS {
+                                ulid: false,
+                                v: 0x7a6b_ffff,
+                            },
+                        });
+                        continue;
+                    }
                     g.book_remove(id);
                     g.gone.pop();
                     ops.push(Op::Upd(UpdSpec {
